@@ -3,6 +3,7 @@ from absval import (Arr, BOT, Bot, Closure, Enum, FnItem, Int, Iter, Ref, Struct
 from absint import Infeasible, get_at, set_at, int_leaves
 from lin import LinForm
 import mirlib
+from mirlib import strip_generics
 from models import (MODELS, PREFIX, model, prefix_model, arr_at, len_lin, usize, new_tmp, opt_none, opt_some, res_ok, res_err,
                     OPTION, RESULT, CFLOW, prove_le)
 
@@ -736,3 +737,112 @@ def m_eq(c):
         c.ret(v, defn=d)
         return
     c.ret(Int.boolean())
+
+
+# ---------------------------------------------------------------------------- callables that are enum constructors; map_or; inclusive ranges
+def ctor_of(c, f):
+    """(adt path, variant index) when the fn item is a tuple-variant constructor of an enum known to the program (e.g. `EBMLSize::Known`)"""
+    if not isinstance(f, FnItem):
+        return None
+    path = strip_generics(f.callee.get("path", ""))
+    if "::" not in path:
+        return None
+    adt_path, vname = path.rsplit("::", 1)
+    info = c.I.adt_info(adt_path)
+    if info is None:
+        core = {"std::option::Option": ["None", "Some"], "std::result::Result": ["Ok", "Err"]}
+        if adt_path in core and vname in core[adt_path]:
+            return adt_path, core[adt_path].index(vname)
+        return None
+    for i, v in enumerate(info["variants"]):
+        if v["name"] == vname:
+            return adt_path, i
+    return None
+
+
+def apply_then_ret(c, s, f, val, vloc):
+    """return f(val) where f is a closure or an enum-variant constructor; anything else yields ⊤"""
+    k = ctor_of(c, f)
+    if k is not None:
+        wrap_payload(c, s, lambda v: Enum(k[0], {k[1]: (v,)}), k[1], val, vloc)
+        return
+    r = c.I.call_closure(c, f, [(val, vloc)], st=s) if isinstance(f, Closure) else None
+    if r is None:
+        c.ret(c.I.top_of(c.ret_ty(), s, ("ret", c.frame.uid, c.bb)), st=s)
+        return
+    for (s2, rv, rloc, nf) in r:
+        c.I.write_place(s2, c.frame, c.term["dest"], rv)
+        c.I.finish_closure(s2, nf)
+        c.results.append(s2)
+
+
+@model("std::result::Result::map_or", "std::option::Option::map_or")
+def m_map_or(c):
+    e, loc, _ = enum_arg(c)
+    f, _ = c.arg(2)
+    good = 1 if "Option" in c.name else 0
+    if e is None:
+        c.ret_top()
+        return
+    for idx, pay, s in split_enum(c, e, loc):
+        if idx == good:
+            apply_then_ret(c, s, f, pay[0], payload_loc(loc, good))
+        else:
+            v, vl = c.arg(1, s)
+            c.ret(v, src_loc=vl, st=s)
+
+
+@model("std::ops::RangeInclusive::new")
+def m_range_inclusive_new(c):
+    a, _ = c.arg(0)
+    b, _ = c.arg(1)
+    c.ret(Struct("std::ops::RangeInclusive", [a, b, Int.const(0, 1, False)]))
+
+
+@model("std::ops::RangeInclusive::contains", "std::ops::Range::contains")
+def m_range_contains(c):
+    rv, rloc = c.arg(0)
+    r, rloc = c.deref(rv) if isinstance(rv, Ref) else (rv, rloc)
+    iv, iloc = c.arg(1)
+    item, iloc = c.deref(iv) if isinstance(iv, Ref) else (iv, iloc)
+    if not (isinstance(r, Struct) and len(r.fields) >= 2 and all(isinstance(x, Int) for x in r.fields[:2]) and isinstance(item, Int)):
+        c.ret(Int.boolean())
+        return
+    lo, hi = r.fields[0], r.fields[1]
+    incl = "RangeInclusive" in c.name
+    il = c.I.lin_of(c.st, item, iloc)
+    # decided by intervals?
+    top = hi.lo if incl else hi.lo - 1
+    if item.lo >= lo.hi and item.hi <= top:
+        c.ret(Int.const(1, 1, False))
+        return
+    if item.hi < lo.lo or item.lo > (hi.hi if incl else hi.hi - 1):
+        c.ret(Int.const(0, 1, False))
+        return
+    if not (lo.is_const() and hi.is_const()) or iloc is None:
+        c.ret(Int.boolean())
+        return
+    a, b = lo.lo, (hi.lo if incl else hi.lo - 1)
+    # inside
+    if max(item.lo, a) <= min(item.hi, b):
+        s1 = c.fork()
+        try:
+            c.I.write_loc(s1, iloc, Int(max(item.lo, a), min(item.hi, b), item.bits, item.signed), il)
+            c.ret(Int.const(1, 1, False), st=s1)
+        except Infeasible:
+            pass
+    # below / above
+    if item.lo < a:
+        s2 = c.fork()
+        try:
+            c.I.write_loc(s2, iloc, Int(item.lo, min(item.hi, a - 1), item.bits, item.signed), il)
+            c.ret(Int.const(0, 1, False), st=s2)
+        except Infeasible:
+            pass
+    if item.hi > b:
+        s3 = c.st
+        try:
+            c.I.write_loc(s3, iloc, Int(max(item.lo, b + 1), item.hi, item.bits, item.signed), il)
+            c.ret(Int.const(0, 1, False), st=s3)
+        except Infeasible:
+            pass
